@@ -3,4 +3,4 @@ HOOK_COMMITS = ["4e61baf", "39445bc", "4a3f00d", "f8ba652", "f66a3c2", "c597d22"
 PENDING_REASON = "not claimed yet: its model and check are still being built (DESIGN.md §8 build order); the technique applies"
 NOT_APPLICABLE = {}
 # Properties whose check has been reviewed and passes on the unchanged tree; only these are claimed in MANIFEST.json.
-READY = ["C01", "C02", "C03", "C04", "C05", "C06", "C07", "C08", "C09", "C10", "C11", "C12", "C14", "C15", "C16", "C17", "C18", "C19", "C20"]
+READY = ["C01", "C02", "C03", "C04", "C05", "C06", "C07", "C08", "C09", "C10", "C11", "C12", "C13", "C14", "C15", "C16", "C17", "C18", "C19", "C20"]
